@@ -36,6 +36,11 @@ pub struct WalkCfg {
     pub allow_local_failures: bool,
     /// QoS 2 receipts are released by an explicit action (C14) instead of immediately
     pub manual_release: bool,
+    /// the application's inbound service (publish service of servers, protocol service of
+    /// clients) may be "not ready" for a while (`Service::ready` pending)
+    pub allow_not_ready: bool,
+    /// woken-but-not-yet-polled hazards: after an acknowledgement the next action may follow
+    /// without any scheduler round in between
     /// probability (percent) of `rounds(k)` instead of full quiescence after an action
     pub partial_progress_pct: u64,
     /// no bias duplicates in the action list (for exhaustive enumeration)
@@ -355,6 +360,8 @@ pub async fn walk(cfg: &WalkCfg, ch: &mut dyn Choose) -> WalkOutcome {
     let mut pm = PeerModel::new(cfg.role.is_v5());
     let mut senders: Vec<Sender> = Vec::new();
     let mut backpressure = false;
+    let mut svc_waiting = false;
+    let svc = if cfg.role.is_server() { crate::app::SVC_PUB } else { crate::app::SVC_PROTO };
     let cap = cfg.cap as u64;
     let mut kinds = vec![SenderKind::Q1];
     if cfg.allow_qos2 {
@@ -421,6 +428,8 @@ pub async fn walk(cfg: &WalkCfg, ch: &mut dyn Choose) -> WalkOutcome {
             Release(usize),
             DropReceipt(usize),
             LateStart(usize),
+            SvcWait,
+            SvcReady,
         }
         let mut acts: Vec<Act> = Vec::new();
         if cfg.enumerate {
@@ -473,6 +482,9 @@ pub async fn walk(cfg: &WalkCfg, ch: &mut dyn Choose) -> WalkOutcome {
         }
         if cfg.allow_backpressure {
             acts.push(if backpressure { Act::BpOff } else { Act::BpOn });
+        }
+        if cfg.allow_not_ready {
+            acts.push(if svc_waiting { Act::SvcReady } else { Act::SvcWait });
         }
         if acts.is_empty() {
             break;
@@ -527,6 +539,15 @@ pub async fn walk(cfg: &WalkCfg, ch: &mut dyn Choose) -> WalkOutcome {
                 backpressure = false;
                 stat!("backpressure_off");
             }
+            Act::SvcWait => {
+                app.set_ready(svc, crate::app::ReadyMode::Wait);
+                svc_waiting = true;
+                stat!("service_not_ready_episodes");
+            }
+            Act::SvcReady => {
+                app.set_ready(svc, crate::app::ReadyMode::Ready);
+                svc_waiting = false;
+            }
             Act::Release(i) => {
                 senders[i].receipt.as_ref().unwrap().push(ReceiptCmd::Release);
                 senders[i].receipt_decided = true;
@@ -555,6 +576,11 @@ pub async fn walk(cfg: &WalkCfg, ch: &mut dyn Choose) -> WalkOutcome {
 
     // ---- drain: back-pressure off, the peer acknowledges everything it receives
     c.peer.unlimited();
+    if cfg.allow_not_ready {
+        // the peer resumes reading first, the service becomes ready afterwards
+        c.settle().await;
+        app.set_ready(svc, crate::app::ReadyMode::Ready);
+    }
     for s in senders.iter_mut() {
         if !s.op.started() && !s.cancelled {
             s.op.start();
